@@ -206,6 +206,9 @@ def m_flag(cat, t, rng):
 
 def m_format_flag(cat, t, rng):
     h = ''.join(ch for ch in t if ch not in ',\n')[:3] or ' '
+    if rng.random() < 0.7:
+        # characters str.strip() removes: a tolerant reading of the flag would still recognise the format
+        h = rng.choice(['\r', '\t', '\x0b', '\x0c', '\x1c', '\x1d', '\x1e', '\x1f', '\x85', '\u2028', '\u2029', ' ', '\xa0', '\u3000'])
     fmt = rng.choice(['c', 'python', 'python-brace', 'perl-brace'])
     bad = rng.choice([fmt + h + '-format', h + fmt + '-format', fmt + '-format' + h, fmt[:1] + h + fmt[1:] + '-format'])
     cat['entries'].append({'msgid': 'ff %d' % rng.randrange(1000), 'msgstr': 'y', 'flags': [bad, rng.choice(['possible-', 'no-', 'impossible-']) + fmt + '-format']})
